@@ -31,6 +31,8 @@ def run(prog: Program, rep: Report, tier: str):
     from . import c01_pair
     c01_pair.rule_pair(prog, rep)
     c01_pair.rule_spline_root(prog, rep)
+    from .lints import rule_stable_bijections
+    rule_stable_bijections(prog, rep, "C01.stable")
     if tier == "thorough":
         from ..audit import audit_c01
         audit_c01(prog, rep)
